@@ -125,13 +125,7 @@ def entry_fields(file, entry_pos, field_delim="\xFF"):
     # Place the cursor at the beginning of the ecc_field
     file.seek(ecc_field_pos[0])
 
-    # Try to convert to an int, an error may happen
-    try:
-        filesize = int(filesize)
-    except Exception as e:
-        print("Exception when trying to detect the filesize in ecc field (it may be corrupted), skipping: ")
-        print(e)
-        #filesize = 0 # avoid setting to 0, we keep as an int so that we can try to fix using intra-ecc
+    # Note: the filesize is kept as the raw string read from the ecc entry: it may be corrupted, so it must first be checked/repaired with its intra-ecc (on the exact characters that were stored) before being converted to an int
 
     # entries = [ {"message":, "ecc":, "hash":}, etc.]
     return {"relfilepath": relfilepath, "relfilepath_ecc": relfilepath_ecc, "filesize": filesize, "filesize_ecc": filesize_ecc, "ecc_field_pos": ecc_field_pos}
@@ -661,7 +655,7 @@ Note2: that Reed-Solomon can correct up to 2*resilience_rate erasures (eg, null 
                 # -- End of intra-ecc on filepath
 
                 # -- Get file size, check its correctness and correct it by using intra-ecc if necessary
-                filesize = str(entry_p["filesize"])
+                filesize = entry_p["filesize"]
                 filesize, fscorrupted, fscorrected, fserrmsg = ecc_correct_intra_stream(ecc_manager_intra, ecc_params_intra, hasher_intra, resilience_rate_intra, filesize, entry_p["filesize_ecc"], entry_pos, enable_erasures=enable_erasures, erasures_char=erasure_symbol, only_erasures=only_erasures, max_block_size=max_block_size)
 
                 # Report errors
@@ -671,7 +665,12 @@ Note2: that Reed-Solomon can correct up to 2*resilience_rate erasures (eg, null 
                 ptee.write(fserrmsg)
 
                 # Convert filesize intra-field into an int
-                filesize = int(filesize)
+                try:
+                    filesize = int(filesize)
+                except ValueError:
+                    ptee.write("Error: ecc entry corrupted on filesize field (value: %s), cannot be repaired using intra-ecc, skipping the file %s." % (filesize, relfilepath))
+                    files_skipped += 1
+                    continue
 
                 # Update entry_p
                 entry_p["filesize"] = filesize # need to update entry_p because various funcs will directly access filesize this way...
